@@ -1638,6 +1638,17 @@ class Interp:
     def slice(self, base, sl: ast.Slice, fr, node):
         st = self.st
         if sl.step is not None:
+            stp = self.ev(sl.step, fr)
+            if isinstance(stp, SV) and stp.c == -1 and sl.lower is None and sl.upper is None and isinstance(base, SV) \
+                    and T.strip_opt(base.ty).k == "list":
+                # x[::-1]: a new list with the elements in reverse order
+                n_ = self.list_len(base)
+                src = z3.Select(st.arr("lel"), smt.rid(base.t))
+                j = z3.Int("j!rev")
+                r = st.new_ref(LIST_CID)
+                st.heap["llen"] = z3.Store(st.arr("llen"), r, n_)
+                st.heap["lel"] = z3.Store(st.arr("lel"), r, z3.Lambda([j], z3.Select(src, n_ - 1 - j)))
+                return SV(smt.mk_ref(r), T.strip_opt(base.ty))
             raise Refuse("slice step")
         if isinstance(base, PTuple):
             lo = self.ev(sl.lower, fr).c if sl.lower else None
